@@ -1047,7 +1047,7 @@ func replay(c *core.Ctx, raw json.RawMessage) error {
 	var fs []shipped.Finding
 	ctx := context.Background()
 	switch cc.Kind {
-	case "reuse-json":
+	case "reuse-json", "reuse-json-noinit":
 		return replayReuse(cc)
 	case "parser":
 		cfg := shipped.ParserConfigByName(cc.Parser)
